@@ -273,3 +273,78 @@ PLAN = {
     'C18': [c18_rf5],
     'C17': [c17_rf1, c17_rf2, c17_rf3, c17_rf4],
 }
+
+
+# ---------------------------------------------------------------------------------------------
+# thorough tier: the quick rules plus wider scopes, a second configuration and a compiler cross-reference
+# ---------------------------------------------------------------------------------------------
+import subprocess
+
+
+def t_rf6_all(units):
+    def fn(run):
+        for u in units:
+            rf_union.rf6(run, u, level='incomplete')
+    fn.__name__ = 'thorough_rf6_all_' + '_'.join(units)
+    return fn
+
+
+def t_rf6_assertions(units):
+    """second configuration: with assertions enabled the asserted tag tests become path knowledge; union reads that contradict
+    an assertion are reported too (can only add findings)"""
+    def fn(run):
+        for u in units:
+            tu = run.tu(u, extra_flags=('-UNDEBUG',))
+            rf_union.rf6(run, tu, level='contradiction')
+    fn.__name__ = 'thorough_rf6_assertions_' + '_'.join(units)
+    return fn
+
+
+def t_rf20_all(units):
+    def fn(run):
+        rf_flow.rf20(run, list(units))
+    fn.__name__ = 'thorough_rf20_' + '_'.join(units)
+    return fn
+
+
+def t_rf25_all(run):
+    rf_fold.rf25(run, units=('gen', 'mir', 'c2mir', 'mir2c'))
+
+
+def t_clang_xref(files):
+    """independent cross-reference, reported as INFO only: clang's own switch/fallthrough/uninitialised diagnostics"""
+    def fn(run):
+        for rel in files:
+            cmd = ['clang', '-fsyntax-only', '-DMIR_PARALLEL_GEN', '-I' + F.REPO, '-std=gnu11', '-fsigned-char', '-DNDEBUG',
+                   '-Wno-everything', '-Wswitch', '-Wimplicit-fallthrough', '-Wconditional-uninitialized', '-Wsometimes-uninitialized',
+                   os.path.join(F.REPO, rel)]
+            try:
+                p = subprocess.run(cmd, capture_output=True, text=True, timeout=300)
+                warns = [l for l in p.stderr.splitlines() if 'warning:' in l]
+                run.info('clang-xref', '%s: %d clang diagnostics (-Wswitch -Wimplicit-fallthrough -W*-uninitialized)' % (rel, len(warns)))
+                for w in warns[:20]:
+                    run.info('clang-xref', w[:200])
+            except Exception as ex:
+                run.info('clang-xref', '%s: clang cross-reference not run (%s)' % (rel, type(ex).__name__))
+    fn.__name__ = 'thorough_clang_xref'
+    return fn
+
+
+import os
+THOROUGH = {
+    'C01': [t_rf25_all, t_clang_xref(['mir-gen.c'])],
+    'C02': [t_rf25_all, t_rf6_assertions(['mir']), t_clang_xref(['mir.c', 'mir-gen.c'])],
+    'C04': [t_rf6_all(['mir'])],
+    'C05': [t_rf6_assertions(['mir'])],
+    'C06': [t_rf6_assertions(['gen'])],
+    'C10': [t_rf6_all(['mir']), t_rf6_assertions(['mir']), t_rf20_all(['mir'])],
+    'C11': [t_rf6_all(['mir']), t_rf6_assertions(['mir']), t_rf20_all(['mir'])],
+    'C12': [t_rf20_all(['mir'])],
+    'C13': [t_rf6_all(['mir'])],
+    'C14': [t_rf6_all(['mir'])],
+    'C15': [t_rf6_all(['mir']), t_rf6_assertions(['mir'])],
+    'C16': [t_rf6_all(['gen']), t_rf20_all(['gen'])],
+    'C17': [t_rf20_all(['mir', 'gen', 'c2mir']), t_clang_xref(['c2mir/c2mir.c'])],
+    'C18': [t_clang_xref(['mir.c', 'mir-gen.c', 'c2mir/c2mir.c'])],
+    'C20': [t_rf6_assertions(['mir2c']), t_clang_xref(['mir2c/mir2c.c'])],
+}
